@@ -35,6 +35,9 @@ type c17bCase struct {
 	// RegionLevel (retry-class): the exception is reported for the whole region action of a
 	// multi-request (throttling, too busy, call queue full reject the batch, not the cheap probe)
 	RegionLevel bool `json:"region_level,omitempty"`
+	// CacheRegions (meta-hang, meta-error, meta-down): what keeps failing is the whole-table lookup of
+	// Client.CacheRegions (it has no context: the run ends by closing the client)
+	CacheRegions bool `json:"cache_regions,omitempty"`
 }
 
 // scheduleGaps returns the minimal waits before retry 1, 2, 3...
@@ -121,6 +124,11 @@ func c17bRunInBubble(c c17bCase) (out Outcome) {
 		cl.ZKHold = true // every lookup attempt hangs until its own time-out
 	case "meta-hang":
 		cl.MetaHold = true
+	case "meta-error":
+		// hbase:meta answers every scan with an exception of no particular class
+		for k := 0; k < 20*forever; k++ {
+			cl.MetaErr = append(cl.MetaErr, sim.Exc{Class: c.Class, Stack: "meta scan failed"})
+		}
 	}
 	lookupTimeout := 30 * time.Second
 	if c.Scenario == "zk-hang" || c.Scenario == "meta-hang" {
@@ -139,6 +147,11 @@ func c17bRunInBubble(c c17bCase) (out Outcome) {
 	var returnedAt time.Time
 	go func() {
 		defer close(done)
+		if c.CacheRegions {
+			err = client.CacheRegions([]byte("t"))
+			returnedAt = time.Now()
+			return
+		}
 		if c.Batch == 0 {
 			err, _ = doOp(client, ctx, "t", opSpec{Kind: "get", Key: c.Key, Marker: marker(0)})
 		} else {
@@ -163,6 +176,19 @@ func c17bRunInBubble(c c17bCase) (out Outcome) {
 	}
 	cancelAt := time.Now()
 	cancel()
+	if c.CacheRegions {
+		// (only closing the client ends it; how long that takes is C19's business)
+		execs, dials, _ := cl.Snapshot()
+		client.Close()
+		select {
+		case <-done:
+		case <-time.After(10 * time.Minute):
+			return viol("cacheregions-never-returns", "CacheRegions had not returned 10 virtual minutes after the client was closed")
+		}
+		drainClient()
+		cl.Stop()
+		return c17bSchedule(c, cl, execs, dials, nil)
+	}
 	synctest.Wait()
 	returned := false
 	select {
@@ -191,7 +217,12 @@ func c17bRunInBubble(c c17bCase) (out Outcome) {
 	if returnedAt.Sub(cancelAt) > 100*time.Millisecond {
 		return viol("cancel-ignored@"+c.Scenario, "the request returned %v after its cancellation", returnedAt.Sub(cancelAt))
 	}
-	// collect the attempt times that matter for the scenario
+	return c17bSchedule(c, cl, execs, dials, zkTimes)
+}
+
+// c17bSchedule holds the attempt times that matter for the scenario against the schedule.
+func c17bSchedule(c c17bCase, cl *sim.Cluster, execs []sim.Exec, dials []sim.DialEvent, zkTimes []time.Duration) (out Outcome) {
+	marker := func(i int) string { return fmt.Sprintf("mk%d", i+1) }
 	var times []time.Duration
 	free := 0                // retries that may come without a wait
 	hang := time.Duration(0) // time each attempt itself takes before it fails
@@ -259,6 +290,13 @@ func c17bRunInBubble(c c17bCase) (out Outcome) {
 			}
 		}
 		hang = time.Duration(c.LookupTimeoutMS) * time.Millisecond
+	case "meta-error":
+		what = "hbase:meta scans (each answered with " + c.Class + ")"
+		for _, e := range execs {
+			if e.Method == "MetaScanArrived" {
+				times = append(times, e.T)
+			}
+		}
 	}
 	// drop what happened after the cancellation
 	var kept []time.Duration
@@ -297,6 +335,9 @@ func c17bRunInBubble(c c17bCase) (out Outcome) {
 		return viol("retry-rate@"+c.Scenario, "%s: %d attempts in %d virtual seconds, the schedule allows at most %d", what, len(times), c.RunSec, maxAttempts)
 	}
 	out.NonTrivial = len(times) >= 4
+	if c.CacheRegions {
+		out.Labels = append(out.Labels, "via_CacheRegions")
+	}
 	out.Labels = append(out.Labels, "scenario_"+c.Scenario, fmt.Sprintf("attempts_ge_%d", (len(times)/4)*4))
 	return out
 }
@@ -314,7 +355,8 @@ func TestC17_RetrySchedule(t *testing.T) {
 		"rapid over enumerated persistent-failure scenarios, exact virtual time, the real back-off function (no stub): "+
 			"the region answers a retryable class forever (single call and SendBatch of 1..3 calls), the server accepts "+
 			"and then drops the connection on every request, the region's server refuses every dial, the region probe "+
-			"answers NotServing / RegionOpening forever, the hbase:meta server is down, ZooKeeper errors; key, queue "+
+			"answers NotServing / RegionOpening forever, the hbase:meta server is down, hangs, or answers every scan with an unclassified exception, "+
+			"ZooKeeper errors; the failing operation is a request or (meta scenarios) the whole-table lookup of CacheRegions; key, queue "+
 			"size, flush interval and run length (5..300 virtual seconds) drawn. Oracle on the simulated cluster's "+
 			"timestamps: the gap before retry i is >= the schedule's i-th wait (16 ms doubling below 5 s, then +5 s below "+
 			"30 s, then constant; two immediate retries allowed after connection-level failures), the number of attempts "+
@@ -322,7 +364,7 @@ func TestC17_RetrySchedule(t *testing.T) {
 			"within 100 virtual ms of its cancellation. Non-trivial = >= 4 consecutive attempts observed; distinct by case hash")
 	Drive(t, rec, true, func(t *rapid.T) c17bCase {
 		c := c17bCase{
-			Scenario:        rapid.SampledFrom([]string{"retry-class", "retry-class", "conn-drop", "dial-fail", "probe-drop", "probe-fail", "meta-down", "meta-notserving", "zk-error", "zk-hang", "meta-hang"}).Draw(t, "scenario"),
+			Scenario:        rapid.SampledFrom([]string{"retry-class", "retry-class", "conn-drop", "dial-fail", "probe-drop", "probe-fail", "meta-down", "meta-notserving", "zk-error", "zk-hang", "meta-hang", "meta-error", "meta-error"}).Draw(t, "scenario"),
 			LookupTimeoutMS: rapid.SampledFrom([]int{20, 200, 1000, 30000}).Draw(t, "lookuptimeout"),
 			Batch:           rapid.SampledFrom([]int{0, 0, 1, 2, 3, 8}).Draw(t, "batch"),
 			Key:             evid.B(rapid.SampledFrom([]string{"a", "m", "z", ""}).Draw(t, "key")),
@@ -338,6 +380,11 @@ func TestC17_RetrySchedule(t *testing.T) {
 			c.Class = rapid.SampledFrom([]string{sim.CallQueueBig, sim.RegionOpening, sim.Throttling, sim.RetryImm, sim.TooBusy, sim.PleaseHold}).Draw(t, "class")
 		case "probe-fail":
 			c.Class = rapid.SampledFrom([]string{sim.NSRE, sim.RegionOpening, sim.RegionMoved, sim.TooBusy}).Draw(t, "class")
+		case "meta-error":
+			c.Class = rapid.SampledFrom([]string{"java.lang.RuntimeException", "org.apache.hadoop.hbase.DoNotRetryIOException", "java.io.IOException"}).Draw(t, "class")
+			c.CacheRegions = rapid.Bool().Draw(t, "cacheregions")
+		case "meta-hang", "meta-down":
+			c.CacheRegions = rapid.IntRange(0, 2).Draw(t, "cacheregions") == 0
 		}
 		return c
 	}, c17bRun)
